@@ -467,6 +467,13 @@ static void* worker(void* arg) {
   return 0;
 }
 
+static void* fresh_worker(void* arg) {
+  spqlios_verif_set_tid((int64_t)(intptr_t)arg);
+  pthread_barrier_wait(&g_start);
+  traced_op(OP_FRESH);
+  return 0;
+}
+
 int main(int argc, char** argv) {
   if (argc < 6) {
     fprintf(stderr, "usage: %s warm|cold nthreads iters seed outfile\n", argv[0]);
@@ -480,6 +487,16 @@ int main(int argc, char** argv) {
   // threads and hides races between calls that do not overlap in time; the sanitizer run is therefore made without events
   if (!getenv("CONC_NOEVENTS")) spqlios_verif_events_enable((uint64_t)(nthreads + 2) * (uint64_t)(g_iters + NOPS + 4) * 24);
   spqlios_verif_set_tid(0);
+  if (!warm) {
+    // a fresh process: the very first objects of the process are built by several threads side by side, before the main thread has
+    // created anything (whatever a constructor initialises lazily is initialised here, concurrently)
+    pthread_barrier_init(&g_start, 0, (unsigned)nthreads);
+    pthread_t* th0 = malloc(sizeof(pthread_t) * (size_t)nthreads);
+    for (int i = 0; i < nthreads; ++i) pthread_create(&th0[i], 0, fresh_worker, (void*)(intptr_t)(i + 1));
+    for (int i = 0; i < nthreads; ++i) pthread_join(th0[i], 0);
+    free(th0);
+    pthread_barrier_destroy(&g_start);
+  }
   modBig = new_module_info(NBIG, FFT64);
   modSmall = new_module_info(NSMALL, FFT64);
   modHuge = new_module_info(NHUGE, FFT64);
